@@ -39,6 +39,10 @@ Tree(id) ==
 DiscUniverse ==
   CASE Disc = "small" -> {Fi(<<>>, "a"), Di(<<>>, "a"), Fi(<<"a">>, "b"), Di(<<"a">>, "b"),
                           Fi(<<>>, "b"), Fi(<<"a", "b">>, "a")}
+    \* names that are not identifiers: a directory / a file whose name contains a dot, next to (or without) the
+    \* modules a and b they could be confused with
+    [] Disc = "dotted" -> {Fi(<<>>, "a"), Di(<<>>, "a.bak"), Fi(<<"a.bak">>, "b"), Fi(<<>>, "b.x"), Di(<<>>, "b"),
+                           Fi(<<"b">>, "a")}
     [] Disc = "full"  -> {Fi(<<>>, "a"), Di(<<>>, "a"), Fi(<<"a">>, "b"), Di(<<"a">>, "b"),
                           Fi(<<>>, "b"), Fi(<<"a", "b">>, "a"), Di(<<>>, "b"), Fi(<<"b">>, "a"),
                           Di(<<"b">>, "a"), Fi(<<"a">>, "a"), Di(<<"a", "b">>, "a"), Fi(<<"b", "a">>, "b")}
@@ -219,7 +223,8 @@ FamSib(b) ==
           x \in Modules(b.files) \ {<<>>, b.site}, i \in {2, 3}, f \in SibForms}
 
 FamDisc(b) ==
-  {Pr("disc", <<>>, {}, 1, Abs(Append(mp, "f"))) : mp \in FileMods(b.files) \cup {<<>>}}
+  {Pr("disc", <<>>, {}, 1, Abs(Append(Written(mp), "f"))) : mp \in FileMods(b.files) \cup {<<>>}}
+  \cup {Pr("disc", <<>>, {}, 1, rp) : rp \in {<<"pkg", "a", "f">>, <<"pkg", "b", "f">>, <<"pkg", "b", "a", "f">>}}
 
 Fam(f, b) ==
   CASE f = "path" -> FamPath(b) [] f = "imp1" -> FamImp1(b) [] f = "list" -> FamList(b)
